@@ -304,26 +304,63 @@ def later_field_part(ctx):
     quick = ctx.tier == "quick"
     want = 260 if quick else 4000
     frames = []
+    import gen_engine
+
+    def candidate(v, op, sure, item=None):
+        if item is not None:
+            # a request known to succeed under 1.4, encoded under `v`
+            try:
+                x = (G.encode_request(G.mkreq(v, [dict(item)])), {"ops": [item["op"]]})
+            except Exception:
+                return None
+        else:
+            x = sg.valid(v=v, op=op, sure=sure)
+        if not x or len(x[1]["ops"]) != 1 or len(x[0]) > 4000:
+            return None
+        fr = x[0]
+        later = [(tag_version(e["tag"]), e["tag"]) for e in G.ttlv_index(fr) if tag_version(e["tag"]) > 10]
+        if not later:
+            return None
+        g, tag = max(later)
+        lows = [w for w in VERS if w < g]
+        if not lows:
+            return None
+        return (fr, v, g, tag, x[1]["ops"][0], rnd.choice(lows))
+    # a systematic sweep first: every operation under every version that has later fields (the generator's own mix has
+    # a key pair request under 2.0 once in a thousand), up to two frames each; then the random rest
+    A = lambda n, k, v: {"name": n, "index": None, "value": {"k": k, "v": v}}
+    more = [("createKeyPair", {"op": "createKeyPair", "bid": None, "crypto": None,
+                               "common": {"tnames": 0, "attrs": [A("Cryptographic Algorithm", "enum", 4), A("Cryptographic Length", "int", 2048)]},
+                               "priv": {"tnames": 0, "attrs": [A("Cryptographic Usage Mask", "int", 1)]},
+                               "pub": {"tnames": 0, "attrs": [A("Cryptographic Usage Mask", "int", 2)]}}),
+            ("register", {"op": "register", "bid": None, "crypto": None, "otype": 2, "tmpl": {"tnames": 0, "attrs": [A("Cryptographic Usage Mask", "int", 12)]},
+                          "obj": {"otype": 2, "value": "0f" * 16, "alg": 3, "len": 128, "format": 1, "subtype": None}}),
+            ("revoke", {"op": "revoke", "bid": None, "crypto": None, "uid": "1", "code": 1}),
+            ("modifyAttribute", {"op": "modifyAttribute", "bid": None, "crypto": None, "uid": "1",
+                                 "attr": {"name": "Name", "index": 0, "value": {"k": "name", "v": "renamed", "t": 1}}, "current": None, "new": None})]
+    for name, it in G.sure_items(14) + more:
+        for v in (13, 14, 20):
+            c = candidate(v, None, False, item=it)
+            if c is not None:
+                # under every earlier version
+                frames += [c[:5] + (lo,) for lo in VERS if lo < c[2]]
+    for op in gen_engine.OPS_ALL:
+        for v in (12, 13, 14, 20):
+            got = 0
+            for _ in range(10):
+                c = candidate(v, op, False)
+                if c is not None:
+                    frames.append(c)
+                    got += 1
+                    if got == (2 if quick else 6):
+                        break
     tries = 0
     while len(frames) < want and tries < want * 6:
         tries += 1
         v = rnd.choice([12, 13, 14, 14, 20, 20])
-        # every operation gets its share (the generator's own mix has a key pair request under 2.0 once in a thousand)
-        import gen_engine
-        op = rnd.choice(gen_engine.OPS_ALL) if rnd.random() < 0.6 else None
-        x = sg.valid(v=v, op=op, sure=(op is None and rnd.random() < 0.3))
-        if not x or len(x[1]["ops"]) != 1 or len(x[0]) > 4000:
-            continue
-        fr = x[0]
-        idx = G.ttlv_index(fr)
-        later = [(tag_version(e["tag"]), e["tag"]) for e in idx if tag_version(e["tag"]) > 10]
-        if not later:
-            continue
-        g, tag = max(later)
-        lows = [w for w in VERS if w < g]
-        if not lows:
-            continue
-        frames.append((fr, v, g, tag, x[1]["ops"][0], rnd.choice(lows)))
+        c = candidate(v, None, rnd.random() < 0.3)
+        if c is not None:
+            frames.append(c)
     rig = S.Rig()
     n = accepted = 0
     by_gate, by_answer = {}, {}
